@@ -382,6 +382,10 @@ func c10Body(s *simkit.Sim, rc *simkit.RunCtx) {
 			s.Fail("C10.deactivated", "active-again", "%s was deactivated by one of its updates but resolves as: %s", id, plain)
 			return
 		}
+		if asOfLater := snap["as-of-later "+id.String()]; deact && !strings.HasPrefix(asOfLater, "ERR") {
+			s.Fail("C10.deactivated", "active-again:as-of-a-later-time", "%s was deactivated by one of its updates but resolves as active when asked for its state at a time after all its updates: %s", id, asOfLater)
+			return
+		}
 		if !deact && strings.HasPrefix(plain, "ERR") {
 			s.Fail("C10.deactivated", "not-resolvable", "%s was never deactivated but does not resolve: %s", id, plain)
 			return
@@ -449,6 +453,9 @@ func c10Snapshot(st didstore.Store, ids []did.DID, events []*c10Event) map[strin
 	for _, id := range ids {
 		out["latest "+id.String()] = c10Describe(st.Resolve(id, nil))
 		out["latest-allow-deactivated "+id.String()] = c10Describe(st.Resolve(id, &resolver.ResolveMetadata{AllowDeactivated: true}))
+		// as of a moment after everything that ever happened to the DID (deactivated documents not allowed)
+		later := time.Date(2100, 1, 1, 0, 0, 0, 0, time.UTC)
+		out["as-of-later "+id.String()] = c10Describe(st.Resolve(id, &resolver.ResolveMetadata{ResolveTime: &later}))
 	}
 	for _, e := range events {
 		id := e.Doc.ID
